@@ -54,68 +54,75 @@ def paramConstraintFields : List String :=
 
 /-- pinned: ToV3SchemaRef `&openapi3.Schema{…}` (JSON keys; typed fields included as rows) -/
 def toV3SchemaTable : List (String × String) :=
-  [("type","type"),("title","title"),("format","format"),("description","description"),("enum","enum"),
-   ("default","default"),("example","example"),("externalDocs","externalDocs"),("uniqueItems","uniqueItems"),
-   ("exclusiveMinimum","exclusiveMinimum"),("exclusiveMaximum","exclusiveMaximum"),("readOnly","readOnly"),
-   ("writeOnly","writeOnly"),("allowEmptyValue","allowEmptyValue"),("deprecated","deprecated"),("xml","xml"),
-   ("minimum","minimum"),("maximum","maximum"),("multipleOf","multipleOf"),("minLength","minLength"),
-   ("maxLength","maxLength"),("pattern","pattern"),("minItems","minItems"),("maxItems","maxItems"),
-   ("required","required"),("minProperties","minProperties"),("maxProperties","maxProperties"),
-   ("additionalProperties","additionalProperties")]
+  [("type", "type"), ("title", "title"), ("format", "format"), ("description", "description"),
+   ("enum", "enum"), ("default", "default"), ("example", "example"), ("externalDocs", "externalDocs"),
+   ("uniqueItems", "uniqueItems"), ("exclusiveMinimum", "exclusiveMinimum"), ("exclusiveMaximum", "exclusiveMaximum"), ("readOnly", "readOnly"),
+   ("writeOnly", "writeOnly"), ("allowEmptyValue", "allowEmptyValue"), ("deprecated", "deprecated"), ("xml", "xml"),
+   ("minimum", "minimum"), ("maximum", "maximum"), ("multipleOf", "multipleOf"), ("minLength", "minLength"),
+   ("maxLength", "maxLength"), ("pattern", "pattern"), ("minItems", "minItems"), ("maxItems", "maxItems"),
+   ("required", "required"), ("minProperties", "minProperties"), ("maxProperties", "maxProperties"), ("allOf", "<make>"),
+   ("properties", "<make>"), ("additionalProperties", "additionalProperties")]
 
 /-- pinned: FromV3SchemaRef `&openapi2.Schema{…}` — no `discriminator` row (finding #21) -/
 def fromV3SchemaTable : List (String × String) :=
-  [("type","type"),("title","title"),("format","format"),("description","description"),("enum","enum"),
-   ("default","default"),("example","example"),("externalDocs","externalDocs"),("uniqueItems","uniqueItems"),
-   ("exclusiveMinimum","exclusiveMinimum"),("exclusiveMaximum","exclusiveMaximum"),("readOnly","readOnly"),
-   ("writeOnly","writeOnly"),("allowEmptyValue","allowEmptyValue"),("deprecated","deprecated"),("xml","xml"),
-   ("minimum","minimum"),("maximum","maximum"),("multipleOf","multipleOf"),("minLength","minLength"),
-   ("maxLength","maxLength"),("pattern","pattern"),("minItems","minItems"),("maxItems","maxItems"),
-   ("required","required"),("minProperties","minProperties"),("maxProperties","maxProperties"),
-   ("additionalProperties","additionalProperties")]
+  [("type", "type"), ("title", "title"), ("format", "format"), ("description", "description"),
+   ("enum", "enum"), ("default", "default"), ("example", "example"), ("externalDocs", "externalDocs"),
+   ("uniqueItems", "uniqueItems"), ("exclusiveMinimum", "exclusiveMinimum"), ("exclusiveMaximum", "exclusiveMaximum"), ("readOnly", "readOnly"),
+   ("writeOnly", "writeOnly"), ("allowEmptyValue", "allowEmptyValue"), ("deprecated", "deprecated"), ("xml", "xml"),
+   ("minimum", "minimum"), ("maximum", "maximum"), ("multipleOf", "multipleOf"), ("minLength", "minLength"),
+   ("maxLength", "maxLength"), ("pattern", "pattern"), ("minItems", "minItems"), ("maxItems", "maxItems"),
+   ("required", "required"), ("minProperties", "minProperties"), ("maxProperties", "maxProperties"), ("properties", "<make>"),
+   ("allOf", "<make>"), ("additionalProperties", "additionalProperties")]
 
 /-- pinned: ToV3Parameter, default case, inner `&openapi2.Schema{…}` built from the parameter -/
 def toV3ParamTable : List (String × String) :=
-  [("type","type"),("format","format"),("enum","enum"),("minimum","minimum"),("maximum","maximum"),
-   ("exclusiveMinimum","exclusiveMinimum"),("exclusiveMaximum","exclusiveMaximum"),("minLength","minLength"),
-   ("maxLength","maxLength"),("default","default"),("items","items"),("minItems","minItems"),
-   ("maxItems","maxItems"),("pattern","pattern"),("allowEmptyValue","allowEmptyValue"),
-   ("uniqueItems","uniqueItems"),("multipleOf","multipleOf")]
+  [("type", "type"), ("format", "format"), ("enum", "enum"), ("minimum", "minimum"),
+   ("maximum", "maximum"), ("exclusiveMinimum", "exclusiveMinimum"), ("exclusiveMaximum", "exclusiveMaximum"), ("minLength", "minLength"),
+   ("maxLength", "maxLength"), ("default", "default"), ("items", "items"), ("minItems", "minItems"),
+   ("maxItems", "maxItems"), ("pattern", "pattern"), ("allowEmptyValue", "allowEmptyValue"), ("uniqueItems", "uniqueItems"),
+   ("multipleOf", "multipleOf")]
 
 /-- pinned: ToV3Parameter, formData case, `&openapi3.Schema{…}` -/
 def toV3FormTable : List (String × String) :=
-  [("description","description"),("type","<local>"),("format","<local>"),("enum","enum"),
-   ("minimum","minimum"),("maximum","maximum"),("exclusiveMinimum","exclusiveMinimum"),
-   ("exclusiveMaximum","exclusiveMaximum"),("minLength","minLength"),("maxLength","maxLength"),
-   ("default","default"),("minItems","minItems"),("maxItems","maxItems"),("pattern","pattern"),
-   ("allowEmptyValue","allowEmptyValue"),("uniqueItems","uniqueItems"),("multipleOf","multipleOf"),
-   ("required","<local>")]
+  [("description", "description"), ("type", "<local>"), ("format", "<local>"), ("enum", "enum"),
+   ("minimum", "minimum"), ("maximum", "maximum"), ("exclusiveMinimum", "exclusiveMinimum"), ("exclusiveMaximum", "exclusiveMaximum"),
+   ("minLength", "minLength"), ("maxLength", "maxLength"), ("default", "default"), ("minItems", "minItems"),
+   ("maxItems", "maxItems"), ("pattern", "pattern"), ("allowEmptyValue", "allowEmptyValue"), ("uniqueItems", "uniqueItems"),
+   ("multipleOf", "multipleOf"), ("required", "<local>")]
 
 /-- pinned: FromV3Parameter, the `result.X = schema.Y` assignments -/
 def fromV3ParamTable : List (String × String) :=
-  [("type","type"),("format","format"),("enum","enum"),("minimum","minimum"),("maximum","maximum"),
-   ("exclusiveMinimum","exclusiveMinimum"),("exclusiveMaximum","exclusiveMaximum"),("minLength","minLength"),
-   ("maxLength","maxLength"),("pattern","pattern"),("default","default"),("items","items"),
-   ("minItems","minItems"),("maxItems","maxItems"),("allowEmptyValue","allowEmptyValue"),
-   ("uniqueItems","uniqueItems"),("multipleOf","multipleOf")]
+  [("type", "type"), ("format", "format"), ("enum", "enum"), ("minimum", "minimum"),
+   ("maximum", "maximum"), ("exclusiveMinimum", "exclusiveMinimum"), ("exclusiveMaximum", "exclusiveMaximum"), ("minLength", "minLength"),
+   ("maxLength", "maxLength"), ("pattern", "pattern"), ("default", "default"), ("items", "items"),
+   ("minItems", "minItems"), ("maxItems", "maxItems"), ("allowEmptyValue", "allowEmptyValue"), ("uniqueItems", "uniqueItems"),
+   ("multipleOf", "multipleOf")]
 
 /-- pinned: FromV3RequestBodyFormData `&openapi2.Parameter{…}` — no `format` row -/
 def fromV3FormTable : List (String × String) :=
-  [("name","<local>"),("description","description"),("type","<local>"),("in","<const>"),
-   ("enum","enum"),("exclusiveMinimum","exclusiveMinimum"),("exclusiveMaximum","exclusiveMaximum"),
-   ("minLength","minLength"),("maxLength","maxLength"),("default","default"),("items","<local>"),
-   ("minItems","minItems"),("maxItems","maxItems"),("maximum","maximum"),("minimum","minimum"),
-   ("pattern","pattern"),("allowEmptyValue","allowEmptyValue"),("required","<local>"),
-   ("uniqueItems","uniqueItems"),("multipleOf","multipleOf")]
+  [("name", "<local>"), ("description", "description"), ("type", "<local>"), ("in", "<const>"),
+   ("enum", "enum"), ("exclusiveMinimum", "exclusiveMinimum"), ("exclusiveMaximum", "exclusiveMaximum"), ("minLength", "minLength"),
+   ("maxLength", "maxLength"), ("default", "default"), ("items", "<local>"), ("minItems", "minItems"),
+   ("maxItems", "maxItems"), ("maximum", "maximum"), ("minimum", "minimum"), ("pattern", "pattern"),
+   ("allowEmptyValue", "allowEmptyValue"), ("required", "<local>"), ("uniqueItems", "uniqueItems"), ("multipleOf", "multipleOf")]
 
 /-- pinned: FromV3SchemaRef, binary branch, `&openapi2.Parameter{…}` (shared file parameter) — no `pattern` row -/
 def fromV3FileTable : List (String × String) :=
-  [("in","<const>"),("name","<local>"),("description","description"),("type","<local>"),("enum","enum"),
-   ("minimum","minimum"),("maximum","maximum"),("exclusiveMinimum","exclusiveMinimum"),
-   ("exclusiveMaximum","exclusiveMaximum"),("minLength","minLength"),("maxLength","maxLength"),
-   ("default","default"),("minItems","minItems"),("maxItems","maxItems"),
-   ("allowEmptyValue","allowEmptyValue"),("uniqueItems","uniqueItems"),("multipleOf","multipleOf"),
-   ("required","<local>")]
+  [("in", "<const>"), ("name", "<local>"), ("description", "description"), ("type", "<local>"),
+   ("enum", "enum"), ("minimum", "minimum"), ("maximum", "maximum"), ("exclusiveMinimum", "exclusiveMinimum"),
+   ("exclusiveMaximum", "exclusiveMaximum"), ("minLength", "minLength"), ("maxLength", "maxLength"), ("default", "default"),
+   ("minItems", "minItems"), ("maxItems", "maxItems"), ("allowEmptyValue", "allowEmptyValue"), ("uniqueItems", "uniqueItems"),
+   ("multipleOf", "multipleOf"), ("required", "<local>")]
+
+/-- pinned copy of the generated table `toV3FlowTable` -/
+def toV3FlowTable : List (String × String) :=
+  [("authorizationUrl", "authorizationUrl"), ("tokenUrl", "tokenUrl"), ("scopes", "<local>")]
+
+/-- pinned copy of the generated table `fromV3SecTable` -/
+def fromV3SecTable : List (String × String) :=
+  [("implicit.flow", "=implicit"), ("implicit.authorizationUrl", "authorizationUrl"), ("authorizationCode.flow", "=accessCode"), ("authorizationCode.authorizationUrl", "authorizationUrl"),
+   ("authorizationCode.tokenUrl", "tokenUrl"), ("password.flow", "=password"), ("password.tokenUrl", "tokenUrl"), ("clientCredentials.flow", "=application"),
+   ("clientCredentials.tokenUrl", "tokenUrl")]
 
 /-! ## §2 references -/
 
@@ -1009,5 +1016,80 @@ def api3 {V : Type} (d : Doc3 V) : Api V :=
     defs := d.cschemas.filterMap (fun (k, c) => match c.formName with | none => some (k, abs3S c.schema) | some _ => none),
     servers := d.servers,
     security := d.secs.map (fun (k, s) => (k, secA3 s)) }
+
+/-! ## §7 fragment and exclusion predicates used by the theorems -/
+
+/-- items of a parameter / header inside the fragment of `toV3S_preserves_partial` -/
+def itemsOK3 {V : Type} (o : Option (Sch V)) : Bool := o.all (fun s => !addlImpure s && v2Refs s)
+
+/-- … and of `roundtripS_partial` -/
+def itemsOKBack {V : Type} (o : Option (Sch V)) : Bool := o.all (fun s => !hasDisc s && !addlRef s && v2Refs s)
+
+/-- exclusion (findings #21c and F-C17-4): the way back loses `required` and `format` of an inline form field -/
+def formLossy {V : Type} (p : Param2 V) : Bool :=
+  p.required || (p.cons.fmt.isSome && p.cons.ty != some "file")
+
+def headerOK3 {V : Type} (h : String × Param2 V) : Bool := itemsOK3 h.2.items
+
+def headerOKBack {V : Type} (h : String × Param2 V) : Bool := itemsOKBack h.2.items
+
+def schemaOK3 {V : Type} (o : Option (Sch V)) : Bool := o.all (fun s => !addlImpure s && v2Refs s)
+
+def schemaOKBack {V : Type} (o : Option (Sch V)) : Bool := o.all (fun s => !hasDisc s && !addlRef s && v2Refs s)
+
+/-- exclusion (finding #26): the response has a schema and `produces` lacks application/json -/
+def respLossy {V : Type} (produces : List String) : RRef2 V → Bool
+  | .ref _ _ => false
+  | .val x => x.schema.isSome && !(effProduces produces).contains "application/json"
+
+/-- the schemes of the fragment: basic, apiKey, and oauth2 with one of the four flows -/
+def secInFragment (s : Sec2) : Bool :=
+  s.type == "basic" || s.type == "apiKey" ||
+  (s.type == "oauth2" && (s.flow == "implicit" || s.flow == "accessCode" || s.flow == "password" || s.flow == "application"))
+
+/-- hypotheses of the response theorems, as one decidable predicate -/
+def respOK3 {V : Type} : RRef2 V → Bool
+  | .ref k _ => k.isV2
+  | .val x => x.headers.all headerOK3 && schemaOK3 x.schema
+def respOKBack {V : Type} : RRef2 V → Bool
+  | .ref k _ => k.isV2
+  | .val x => x.headers.all headerOKBack && schemaOKBack x.schema
+
+/-- an inline query / header / path parameter inside the fragment -/
+def paramSimple {V : Type} : PRef2 V → Bool
+  | .ref _ _ => false
+  | .val p => p.loc != "body" && p.loc != "formData" && itemsOK3 p.items
+
+def opSimple {V : Type} (o : Op2 V) : Bool :=
+  o.params.all paramSimple && o.responses.all (fun kr => respOK3 kr.2)
+
+def pathSimple {V : Type} (p : Path2 V) : Bool := p.params.all paramSimple && p.ops.all opSimple
+
+/-- what ToV3Parameter yields for a parameter of the simple fragment -/
+def toV3PS {V : Type} : PRef2 V → PRef3 V
+  | .ref k n => .ref (toV3RK k) n
+  | .val p => .val (toV3Param p)
+
+/-- the v3 operation ToV3Operation builds in the simple fragment -/
+def toV3OpS {V : Type} (o : Op2 V) : Op3 V :=
+  { method := o.method, opId := o.opId, params := o.params.map toV3PS, body := none,
+    responses := o.responses.map (fun kr => (kr.1, toV3Resp o.produces kr.2)) }
+
+def toV3PathS {V : Type} (p : Path2 V) : Path3 V :=
+  { path := p.path, params := p.params.map toV3PS, ops := p.ops.map toV3OpS }
+
+def nodupKeys {α : Type} : List (String × α) → Bool
+  | [] => true
+  | (k, _) :: r => (alookup k r).isNone && nodupKeys r
+
+def locOK (l : Loc2) : Bool := l.host != "" || (l.basePath == "" && l.schemes.isEmpty)
+
+/-- documents without shared parameters whose operations take inline query / header / path parameters;
+    shared responses, definitions (distinct names), security schemes and the location are unrestricted
+    inside the fragments of the component theorems -/
+def docSimple {V : Type} (d : Doc2 V) : Bool :=
+  d.params.isEmpty && d.paths.all pathSimple && d.responses.all (fun kr => respOK3 kr.2) &&
+  nodupKeys d.defs && d.defs.all (fun ks => !addlImpure ks.2 && v2Refs ks.2) &&
+  d.secs.all (fun ks => secInFragment ks.2) && locOK d.loc
 
 end KinModel.Conv
